@@ -132,7 +132,7 @@ def run(ctx):
     shutil.rmtree(os.path.join(ctx.workdir, "tmp"), ignore_errors=True)
     vf.write_evidence(
         ctx, "proof",
-        rule="per kind (bdd, bcdd, zbdd): enumerated ownership probes = every function-valued entry point (connectives, not, ite, cofactor(s), pick_cube_dd(_set), restrict, forall/exists/unique, apply_forall/exists/unique x 3 operators, substitute (object / NULL), ZBDD subset0/subset1/change/union/intsec/diff/make_node, ref, DDDMP export+import, DDDMP export (array / names / iterators), DOT dump) x every subset of its operands replaced by the INVALID handle x 3 placements of ref/unref/gc/manager-handle release (incl. a non-default variable order), constructor cases with named variables; random call sequences of 20..90 (thorough: ..140) calls over 2..6 variables, every third one on a manager of 2..20 nodes (out-of-memory INVALID handles), every seventh with 2 worker threads. non-trivial = case with >= 6 calls; distinct = distinct (header, call list)",
+        rule="per kind (bdd, bcdd, zbdd): enumerated ownership probes = every function-valued entry point (connectives, not, ite, cofactor(s), pick_cube_dd(_set), restrict, forall/exists/unique, apply_forall/exists/unique x 3 operators, substitute (object / NULL), ZBDD subset0/subset1/change/union/intsec/diff/make_node, ref, DDDMP export+import, DDDMP export (array / names / iterators), DOT dump) x every subset of its operands replaced by the INVALID handle x 3 placements of ref/unref/gc/manager-handle release (incl. a non-default variable order), constructor cases with named variables; random call sequences of 20..90 (thorough: ..160) calls, 60 (thorough: 1500) per kind, over 2..6 variables, every third one on a manager of 2..20 nodes (out-of-memory INVALID handles), every seventh with 2 worker threads. non-trivial = case with >= 6 calls; distinct = distinct (header, call list)",
         checker_cmd="make -C coq Props/C19.vo (coqc 8.16.1) + Print Assumptions audit; ./check C19",
         extra_cov={"cases_ok": ok, "cases_bad": len(bad), "tier": ctx.tier},
         assumptions=["the C symbols are declared by hand in harness_ffi/src/inc/ffi_decl.rs from the Rust signatures (no generated header offline)",
